@@ -111,9 +111,12 @@ impl<'a> Gen<'a> {
         let mut guard = 0;
         while out.len() < n && guard < 1000 {
             guard += 1;
+            let compound = wrap_langs && self.rng.chance(1, 14);
             let forced = std::env::var("BWSIM_FORCE_EXT").ok();
             let ext: &str = if let Some(f) = forced.as_deref().and_then(|f| WRAP_EXTS.iter().chain(HASH_EXTS.iter()).find(|e| **e == f)) {
                 f
+            } else if compound {
+                "go"
             } else if wrap_langs && self.rng.chance(1, 4) {
                 *self.rng.pick(WRAP_EXTS)
             } else {
@@ -127,6 +130,23 @@ impl<'a> Gen<'a> {
                 p.push('/');
             }
             p.push_str(&format!("{stem}.{ext}"));
+            // now and then a compound Go file name, and a look-alike that maps to no grammar
+            if compound && ext == "go" {
+                let dir = p.strip_suffix(&format!("{stem}.go")).unwrap_or("").to_string();
+                let kind = *self.rng.pick(&["mod", "sum", "work"]);
+                p = if self.rng.chance(2, 3) {
+                    format!("{dir}go.{kind}")
+                } else {
+                    format!("{dir}{stem}.go.{kind}")
+                };
+                if self.rng.chance(2, 3) && out.len() + 1 < n {
+                    let decoy_dir = if self.rng.chance(1, 2) { dir.clone() } else { String::new() };
+                    let decoy = format!("{decoy_dir}{}.{kind}", self.rng.pick(&["legacy", "notes", "old"]));
+                    if !out.iter().any(|o| o == &decoy || o.starts_with(&format!("{decoy}/")) || decoy.starts_with(&format!("{o}/"))) && decoy != p {
+                        out.push(decoy);
+                    }
+                }
+            }
             // a path must not be a prefix-directory of another path
             if out.iter().any(|o| o == &p || o.starts_with(&format!("{p}/")) || p.starts_with(&format!("{o}/"))) {
                 continue;
@@ -675,7 +695,7 @@ impl<'a> Gen<'a> {
 }
 
 fn wrapper_free(path: &str) -> bool {
-    !WRAP_EXTS.iter().any(|e| path.ends_with(&format!(".{e}")))
+    !is_wrapped(path)
 }
 
 fn sort_numeric(lines: &mut Vec<String>) {
